@@ -50,6 +50,11 @@ CLAIMED = {
         "Static: tables equal 2^k and the exact tuplet multiples; add/subtract are reciprocal duration addition/subtraction and mutually inverse as rational functions, dots/tuplet/triplet/quintuplet/septuplet equal their closed forms; every value built from a base with 0-4 dots or a 3:2/5:4/7:4 ratio is analysed as exactly that class, and every path of determine over the interval [0.99c, 1.01c] around each undotted / single-dotted recognised value c returns c's class; no interval of beat units is a recurrent set of the halving loop, integer units are valid exactly for 1,2,4,...; the four meter predicates match their definitions on counts -3..18 x valid/invalid unit.",
         "Exact-value checks use the module's own float constructors (float equality as written); not decided: round-trip float equality of add/subtract, tolerance for >= 2 dots. Trusted: CPython ast, abstract evaluator + numeric domains (variants/c09.py), exact rational oracle.",
         "DESIGN.md section 2, C09"),
+    "C10": (
+        "abstract interpretation of the Note class on abstract objects: symbolic name/octave for __int__/from_int, trichotomy tables for the six comparisons, symbolic in-range / out-of-range evaluation of the setters and text parser, count-down summaries of the Helmholtz writer and fold evaluation of the reader on the writer's shapes, who-may-write enumeration, specialisation of the Hz pair over 0..127",
+        "Static: int(Note) == 12*octave + natural + sharps - flats for every letter, accidental string and octave; int(from_int(i)) == i as linear forms; each rich comparison agrees with the ordering of the two integers on every path and distinguishes all three orderings; set_note parses 'Name' and 'Name-octave', rejects malformed names, the copy constructor forwards name/octave/velocity/channel; velocity outside 0..127 and channel outside 0..15 are rejected on both unbounded sides and no other code writes those attributes; Helmholtz output has the right case and exactly 2-octave commas / octave-3 primes for a symbolic octave, and reading it back restores letter, accidentals and octave for any number of marks; A-4 sits at the standard pitch, frequency doubles per octave and from_hertz inverts to_hertz over 0..127 (3 pitches, detuned -40/0/+40 cents).",
+        "Hz clause is a specialisation over the finite MIDI range with host floats, not a proof for all detunings. Independence of copies is decided under C15. Trusted: CPython ast, abstract evaluator (variants/c10.py), C01 summaries.",
+        "DESIGN.md section 2, C10"),
     "C06": (
         "offset-domain abstract interpretation of every chord builder (interval constructors summarised by their C02 post-condition) against a meaning-keyed chord-theory oracle; table agreement; abstract evaluation of the shorthand parser on root shapes x keys, aliases, slash, polychord, NC, list and malformed classes",
         "Static: each of the shorthand builders (incl. the lambda) yields, for 7 root letters x arbitrary accidentals, exactly the (letter, semitone) list its meaning prescribes; chord_shorthand and chord_shorthand_meaning have equal key sets; from_shorthand maps every key, every min/mi/-/maj/ma alias spelling, slash basses, polychords, NC and list input to the right builder result and rejects unknown suffixes / bad roots / bad basses with the documented errors.",
